@@ -143,9 +143,9 @@ class Module:
         self.relpath = relpath
         self.source = source
         self.tree = ast.fix_missing_locations(Canon().visit(ast.parse(source, filename=str(path))))
-        from .inline import inline_compiled_regexes, inline_new_helpers, normalise_idioms
+        from .inline import desugar_match, inline_compiled_regexes, inline_new_helpers, normalise_idioms, normalise_map_calls
 
-        self.idioms = normalise_idioms(self.tree) + inline_compiled_regexes(self.tree)
+        self.idioms = desugar_match(self.tree) + normalise_map_calls(self.tree) + normalise_idioms(self.tree) + inline_compiled_regexes(self.tree)
 
         try:
             self.inlined = inline_new_helpers(self.tree, name)
